@@ -14,7 +14,7 @@ import itertools
 from fractions import Fraction
 
 from mc import common, sweep, ref, gen, prog as P
-from mc.common import explore
+from mc.common import explore, vsc
 from mc.gen import U1, U2, U3, fld
 from props.c01 import _detuple
 
@@ -212,6 +212,164 @@ def cases_for(tier):
     return cases
 
 
+# ---------------------------------------------------------------------------
+# direct programs: shapes the AST grammar does not have (a list on the after side, two ordered groups in one
+# call, directives that change from call to call on one object).  Same oracle: complete answer tree of the
+# judged call, exact Fractions.
+# ---------------------------------------------------------------------------
+
+def _mk_list_after(size, rev):
+    @vsc.randobj
+    class LA(object):
+        def __init__(self):
+            self.a = vsc.rand_bit_t(2)
+            self.l = vsc.rand_list_t(vsc.bit_t(2), size)
+
+        @vsc.constraint
+        def c(self):
+            if not rev:
+                vsc.solve_order(self.a, self.l)
+            with vsc.foreach(self.l) as it:
+                it <= self.a
+            if rev:
+                vsc.solve_order(self.a, self.l)
+    return dict(new=LA, pre=[], call=lambda o: o.randomize(), read=lambda o: (int(o.a),) + tuple(int(x) for x in o.l),
+                names=['a'] + ['l%d' % i for i in range(size)], doms=[range(4)] * (1 + size),
+                pred=lambda v: all(x <= v[0] for x in v[1:]), uniform=['a'])
+
+
+def _mk_two_groups(split):
+    @vsc.randobj
+    class TG(object):
+        def __init__(self):
+            self.a = vsc.rand_bit_t(2)
+            self.b = vsc.rand_bit_t(2)
+            self.c = vsc.rand_bit_t(2)
+            self.d = vsc.rand_bit_t(2)
+
+        @vsc.constraint
+        def c1(self):
+            vsc.solve_order(self.a, self.b)
+            self.b <= self.a
+            if not split:
+                vsc.solve_order(self.c, self.d)
+                self.d >= self.c
+
+        @vsc.constraint
+        def c2(self):
+            if split:
+                vsc.solve_order(self.c, self.d)
+                self.d >= self.c
+    return dict(new=TG, pre=[], call=lambda o: o.randomize(), read=lambda o: (int(o.a), int(o.b), int(o.c), int(o.d)),
+                names=['a', 'b', 'c', 'd'], doms=[range(4)] * 4, pred=lambda v: v[1] <= v[0] and v[3] >= v[2], uniform=['a', 'c'])
+
+
+def _mk_changing(first, npre):
+    """the directives of one call must not outlive it: earlier calls on the same object order other fields"""
+    @vsc.randobj
+    class CH(object):
+        def __init__(self):
+            self.a = vsc.rand_bit_t(2)
+            self.b = vsc.rand_bit_t(2)
+            self.c = vsc.rand_bit_t(2)
+
+        @vsc.constraint
+        def cc(self):
+            self.b <= self.a
+            self.c >= self.a
+
+    def pre(o):
+        with o.randomize_with() as it:
+            if first == 'c,a':
+                vsc.solve_order(it.c, it.a)
+            elif first == 'b,a':
+                vsc.solve_order(it.b, it.a)
+            elif first == 'b,c':
+                vsc.solve_order(it.b, it.c)
+
+    def call(o):
+        with o.randomize_with() as it:
+            vsc.solve_order(it.a, it.b)
+    return dict(new=CH, pre=[pre] * npre, call=call, read=lambda o: (int(o.a), int(o.b), int(o.c)), names=['a', 'b', 'c'],
+                doms=[range(4)] * 3, pred=lambda v: v[1] <= v[0] and v[2] >= v[0], uniform=[], same_as='changing/none/0')
+
+
+DIRECT = {}
+for _sz in (1, 2):
+    for _rev in (False, True):
+        DIRECT["list_after/%d/%s" % (_sz, "rev" if _rev else "fwd")] = (_mk_list_after, (_sz, _rev))
+for _sp in (False, True):
+    DIRECT["two_groups/%s" % ("split" if _sp else "one_block")] = (_mk_two_groups, (_sp,))
+DIRECT["changing/none/0"] = (_mk_changing, (None, 0))
+for _f in ('c,a', 'b,a', 'b,c'):
+    for _n in (1, 2):
+        DIRECT["changing/%s/%d" % (_f, _n)] = (_mk_changing, (_f, _n))
+
+
+def direct_case(name):
+    from mc.common import SRandState, Script
+    mk, args = DIRECT[name]
+    spec = mk(*args)
+    cnt = {"executions": 0, "transitions": 0, "states": 0, "nontrivial": 1, "capped": 0}
+    viol = []
+
+    def bad(sub, what, obs, exp, choices=None):
+        if len(viol) < 4:
+            viol.append({"subcheck": sub, "case": {"direct": name, "choices": choices}, "observed": obs, "expected": exp,
+                         "what": "program %s: %s" % (name, what)})
+    sols = set(t for t in itertools.product(*spec['doms']) if spec['pred'](t))
+
+    def run(s):
+        o = spec['new']()
+        for pc in spec['pre']:
+            o.set_randstate(SRandState(Script([])))
+            r = common.outcome(lambda: pc(o))
+            if r[0] != 'ok':
+                return r, None
+        o.set_randstate(SRandState(s))
+        out = common.outcome(lambda: spec['call'](o))
+        return out, spec['read'](o)
+    st = {}
+    dist = {}
+    total = Fraction(0)
+    for x in explore(run, bound=None, cap=60000, state=st):
+        out, vals = x.obs
+        cnt["executions"] += 1
+        cnt["transitions"] += len(x.trace) + 1
+        if out[0] != 'ok':
+            bad("dead_end", "satisfiable but a call ended with %r" % (out,), list(out), "returns", x.choices)
+            key = ('exc',) + tuple(out)
+        else:
+            key = vals
+            if vals not in sols:
+                bad("not_a_solution", "returned %r which violates the constraints" % (dict(zip(spec['names'], vals)),), list(vals),
+                    "a solution", x.choices)
+        dist[key] = dist.get(key, Fraction(0)) + x.prob
+        total += x.prob
+    if st.get("capped") or st.get("wide"):
+        cnt["capped"] = 1
+        return {"cnt": cnt, "viol": viol, "name": name, "dist": None}
+    if total != 1:
+        raise common.HarnessError("probability mass %s != 1" % total)
+    cnt["states"] = len(dist)
+    support = set(k for k in dist if not (k and k[0] == 'exc'))
+    missing = sorted(sols - support)
+    if missing:
+        bad("solution_unreachable", "solution(s) %r are produced by no answer sequence" % (missing[:6],), sorted(map(list, support))[:16],
+            sorted(map(list, sols))[:16])
+    for nm in spec['uniform']:
+        i = spec['names'].index(nm)
+        marg = {}
+        for k, pr in dist.items():
+            if not (k and k[0] == 'exc'):
+                marg[k[i]] = marg.get(k[i], Fraction(0)) + pr
+        if len(set(marg.values())) > 1 or set(marg) != set(t[i] for t in sols):
+            bad("not_uniform", "%s is ordered first and every value of its range is feasible, but its exact marginal is %s" % (
+                nm, {k: str(v) for k, v in sorted(marg.items())}), {str(k): str(v) for k, v in marg.items()}, "uniform")
+    return {"cnt": cnt, "viol": viol, "name": name, "same_as": spec.get('same_as'),
+            "dist": {str(k): str(v) for k, v in sorted(dist.items(), key=str)}}
+
+
 def classify(v):
     return None
 
@@ -246,6 +404,32 @@ def run(res, only=None):
                                "observed": o["marg"], "expected": base["marg"],
                                "what": "same (type of a, F_a, D_a) %s but marginals differ: %s vs %s (other program %r)" % (
                                    k, o["marg"], base["marg"], base["prog"]["block"])})
+    # direct programs
+    dnames = common.rotate(sorted(DIRECT), res.seed)
+    dout = common.pmap(direct_case, dnames, chunk=1)
+    byname = {}
+    for nm, r in common.good(dnames, dout, res):
+        cnt = r["cnt"]
+        res.add("traces_validated_against_impl", cnt["executions"])
+        res.add("transitions", cnt["transitions"])
+        res.add("states", cnt["states"])
+        res.add("evaluations", cnt["executions"])
+        nontriv += cnt["nontrivial"]
+        res.subcount("direct", "programs")
+        res.subcount("direct", "capped", cnt["capped"])
+        for v in r["viol"]:
+            v["finding"] = classify(v)
+            res.violation(v)
+        byname[nm] = r
+    for nm, r in sorted(byname.items()):
+        o = byname.get(r.get("same_as") or "")
+        if o is not None and o is not r and r.get("dist") is not None and o.get("dist") is not None:
+            pairs += 1
+            if r["dist"] != o["dist"]:
+                res.violation({"subcheck": "earlier_directive_outlives_its_call", "finding": None, "case": {"direct": nm, "choices": None},
+                               "observed": r["dist"], "expected": o["dist"],
+                               "what": "program %s: the exact outcome distribution of the judged call differs from the same call on a "
+                                       "fresh object (%s)" % (nm, r.get("same_as"))})
     res.subcount("order", "program_pairs_compared", pairs)
     res.subcount("order", "groups", len(groups))
     res.cov["distinct_nontrivial"] = nontriv
@@ -260,6 +444,13 @@ def run(res, only=None):
 
 def replay(rec):
     c = rec["case"]
+    if c.get("direct"):
+        r = direct_case(c["direct"])
+        if rec["subcheck"] == "earlier_directive_outlives_its_call":
+            r2 = direct_case(r["same_as"])
+            return r["dist"] == r2["dist"], "distributions %s" % ("equal" if r["dist"] == r2["dist"] else "differ")
+        bad = [v for v in r["viol"] if v["subcheck"] == rec["subcheck"]]
+        return (not bad), (bad[0]["what"] if bad else "holds")
     pr = _detuple(c["prog"])
     r = run_case({'prog': pr})
     if rec["subcheck"] == "marginal_depends_on_b":
